@@ -153,8 +153,22 @@ def cpython_sig(toks):
     for t in toks:
         if t.type in (pytok.COMMENT, pytok.NL):
             continue
-        out.append((_PYNAMES.get(t.type, str(t.type)), t.string, tuple(t.start), tuple(t.end)))
+        end = tuple(t.end)
+        if t.type in (pytok.STRING, pytok.FSTRING_MIDDLE) and t.start[0] != t.end[0] and not t.string.isascii():
+            # CPython 3.12.1's tokenize reports the end column of a multi-line string token as a UTF-8 byte offset
+            # (it then overlaps the following NEWLINE token); use the character offset, which is what its own
+            # token text implies
+            end = (t.end[0], len(t.string.rsplit("\n", 1)[1]))
+        out.append((_PYNAMES.get(t.type, str(t.type)), t.string, tuple(t.start), end))
     return out
+
+
+_STRUCTURAL = {"NEWLINE", "INDENT", "DEDENT", "ENDMARKER"}
+
+
+def placement_only(sig):
+    """the property compares NEWLINE/INDENT/DEDENT/ENDMARKER by their place in the sequence only"""
+    return [(t[0],) if t[0] in _STRUCTURAL else t for t in sig]
 
 
 def first_diff(a, b):
